@@ -190,7 +190,7 @@ Next ==
             /\ UNCHANGED <<truth, proj, held, acked, hasTruth, kind, lossless, lostCommit, fixp>>
        [] e.ev = "api_ret" ->
             IF e.c = "begin"
-            THEN /\ (IF e.class = "nil" THEN txns' = Ext(txns, e.txn, NewTxn(e.client, e.start, e.pess, e.seq)) ELSE UNCHANGED txns)
+            THEN /\ (IF e.class = "nil" THEN txns' = Ext(txns, e.txn, NewTxn(e.client, e.start, e.pess, IF "call_seq" \in DOMAIN e THEN e.call_seq ELSE e.seq)) ELSE UNCHANGED txns)
                  /\ UNCHANGED <<truth, proj, held, acked, hasTruth, kind, lossless, lostCommit, fixp>>
             ELSE IF e.c = "recovery_read"
             THEN /\ Unch
